@@ -66,6 +66,7 @@ REQUIRED = ["io_roundtrips", "io_tiff", "io_npy", "io_nrrd", "io_uint_to_float",
             "io_float_stacks_holding_exactly_one",
             "transformer_reused", "rejected_calls_before_raster", "rasters_interleaved",
             "raster_one_slice_saved_and_read", "io_older_gray_front_end",
+            "resolution_arrays_edited_after_construction",
             "tap_get_samplers"]
 FLOOR = {"quick": 450, "thorough": 45000}
 SHARDS = {"quick": 8, "thorough": 16}
@@ -339,6 +340,10 @@ def check_raster(ctx, case, tmp):
         res_arg = int(res_arg) if form == "tuple" else np.float32(res_arg)
     ctx.count("resolution_form_" + (form if not case.get("scalar_res") else "scalar"))
     tf = ToImageStack(res_arg)
+    if isinstance(res_arg, np.ndarray) and res_arg.ndim == 1 and case["seed"] % 2 == 0:
+        # the resolution array is the caller's: it is rescaled in place for the next transformer
+        res_arg *= 2
+        ctx.count("resolution_arrays_edited_after_construction")
     if case["seed"] % 3 == 0:
         # the transformer object was in use before: it rasterised another tree, and then the
         # caller asked for this tree with malformed ranges (rejected) before getting it right
@@ -463,7 +468,7 @@ def _raster_pass(ctx, case, tmp, tree, pid, tf, res_arg, prefix, geom=None):
         if p >= 0 and np.linalg.norm(X[c] - X[p]) <= abs(R[c] - R[p]) * 1.1 + 1e-3:
             ctx.skip("an edge is not a proper round cone")
             return
-    st = tf.resolution.astype(np.float64)
+    st = np.array(case["res"], dtype=np.float32).astype(np.float64)  # (the resolution asked for)
     if case["ranges"] == "auto":
         cmin = np.floor((X - R[:, None]).min(0).astype(np.float32)).astype(np.float64)
         cmax = np.ceil((X + R[:, None]).max(0).astype(np.float32)).astype(np.float64)
